@@ -249,9 +249,17 @@ class Unit:
         lo, hi = 0, len(self.text)
         if isinstance(fnref, tuple):
             ih, fn = fnref
-            p = s.find_header(header_regex(ih) + r'\s*(?:where[^{]*)?\{')
-            bo = s.body_open(p)
-            lo, hi = bo + 1, s.match_close(bo)
+            # several impl blocks may share a header: take the one that contains the function
+            cands = []
+            for hm in re.finditer(header_regex(ih) + r'\s*(?:where[^{]*)?\{', s.code):
+                cbo = s.body_open(hm.start())
+                cbc = s.match_close(cbo)
+                if re.search(r'(?<![A-Za-z0-9_])fn\s+' + re.escape(fn) + r'(?![A-Za-z0-9_])', s.code[cbo:cbc]):
+                    cands.append((cbo, cbc))
+            if len(cands) != 1:
+                raise ExtractError('<unit %s>: %d impl blocks `%s` contain fn %s' % (self.name, len(cands), ih, fn))
+            bo, hi = cands[0]
+            lo = bo + 1
         else:
             fn = fnref
         p = s.find_header(r'(?<![A-Za-z0-9_])fn\s+' + re.escape(fn) + r'(?![A-Za-z0-9_])', lo, hi)
